@@ -245,10 +245,10 @@ func (c *connection) onProcess(onConnect OnConnect, onRequest OnRequest) (proces
 		// Note: Poller's closeCallback call will try to get processing lock failed but here already near to unlock processing.
 		//       So here we need to check connection state again, to avoid connection leak
 		// double check close state
-		if c.status(closing) != 0 && c.lock(processing) {
-			// poller will get the processing lock failed, here help poller do closeCallback
-			// fd must already detach by poller
-			c.closeCallback(false, false)
+		if closedBy = c.status(closing); closedBy != 0 && c.lock(processing) {
+			// whoever closed the connection failed to get the processing lock, here help to do closeCallback.
+			// fd is already detached if it was closed by poller, but not if it was closed by user.
+			c.closeCallback(false, closedBy == user)
 			panicked = false
 			return
 		}
